@@ -279,8 +279,12 @@ OBLIGATIONS += [
        "all waiting_tx_count != 0, all counts", q=TE(), th=TE(), inst="BRC20ProgEngine over the lock model"),
     _k("E2", ENG + "e2_reorg_acceptance", ["C01", "C05"], "engine reorg(n): Err above the height and more than 10 below it, Ok (no-op) at the height - never a storage or lock write",
        "all heights < 2^62, all n outside (height-10, height)", q=TE(), th=TE(), inst="BRC20ProgEngine over the lock model"),
-    _k("E3", ENG + "e3_validate_next_tx", ["C05"], "validate_next_tx accepts exactly: idx = count and (count = 0 or same timestamp and hash) and the block is unknown",
-       "all counts, timestamps and indexes; same / different hash (two concrete values); block number known / unknown", q=TE(1200), th=TE(1800), inst="BRC20ProgEngine over the lock model"),
+    _k("E3.unknown", ENG + "e3_validate_next_tx_unknown_block", ["C05"], "validate_next_tx (block unknown) accepts exactly: idx = count and (count = 0 or same timestamp and hash); no lock write",
+       "all counts, timestamps and indexes; same / different hash (two concrete values)", q=TE(900), th=TE(1800), inst="BRC20ProgEngine over the lock model"),
+    _k("E3.number", ENG + "e3_validate_next_tx_known_number", ["C05"], "validate_next_tx rejects every call for a block number that already exists",
+       "as E3.unknown, number 20 known (uncommitted)", q=TE(900), th=TE(1800), inst="BRC20ProgEngine over the lock model"),
+    _k("E3.hash", ENG + "e3_validate_next_tx_known_hash", ["C05"], "validate_next_tx rejects every call whose block hash already exists",
+       "as E3.unknown, one hash known (uncommitted)", q=TE(900), th=TE(1800), inst="BRC20ProgEngine over the lock model"),
     _k("E7", ENG + "e7_generated_hash_nonzero", ["C09", "C02"], "generate_block_hash(n) is never the zero hash and is injective",
        "all n, m < 2^64-1", q=T(unwind=34, unwindset={"memcmp.0": 34}, timeout=600), th=T(unwind=34, unwindset={"memcmp.0": 34}, timeout=600)),
     _k("P5", API + "p5_select_bytes_exactly_one", ["C05", "C15"], "select_bytes is Ok iff exactly one of the two encodings is present",
@@ -294,7 +298,7 @@ OBLIGATIONS += [
        q=T(unwind=10, timeout=600), th=T(unwind=10, timeout=600), stubs=["base64 decode call site stubbed"]),
     _k("P6.raw3", API + "p6_raw_prefix_d3", ["C09", "C15"], "payload decoder, raw prefix: two remaining bytes verbatim, never a panic", "decoded vector [0x00, x, y], all x,y",
        q=T(unwind=10, timeout=600), th=T(unwind=10, timeout=600), stubs=["base64 decode call site stubbed"]),
-    _k("P6.unk", API + "p6_unknown_prefix", ["C09", "C15"], "payload decoder: an unknown compression prefix yields None", "all prefixes > 2, one more arbitrary byte",
+    _k("P6.unk", API + "p6_unknown_prefix", ["C09", "C15"], "payload decoder: an unknown compression prefix yields None", "prefixes 0x03 and 0xff, one more arbitrary byte",
        q=T(unwind=10, timeout=600), th=T(unwind=10, timeout=600), stubs=["base64 decode call site stubbed"]),
     _k("P6.zstd", API + "p6_zstd_limit", ["C09", "C15"], "payload decoder, zstd branch: for every behaviour of the two zstd functions the result is None or <= CALLDATA_LIMIT bytes, never a panic",
        "decoded vector [0x02, x]; zstd stubbed", th=T(unwind=10, stubbing=True, timeout=1800),
@@ -315,8 +319,12 @@ def _s(oid, module, func, props, what, bounds, fns, **kw):
 
 
 OBLIGATIONS += [
-    _s("P1", "smt_gas", "run", ["C16", "C02"], "allowance = min(len*12000, 2^64-1); inverse never increases length or allowance; monotone; no panic",
-       "all 64-bit inputs (unbounded inside the machine width)", ["engine::utils::get_gas_limit", "engine::utils::get_inscription_byte_len"]),
+    _s("P1.spec", "smt_gas", "run_spec", ["C16", "C02"], "allowance: get_gas_limit(n) = min(n*12000, 2^64-1), GAS_PER_BYTE = 12000, neither function can panic",
+       "all 64-bit inputs (unbounded inside the machine width)", ["engine::utils::get_gas_limit", "engine::utils::get_inscription_byte_len", "global::config::GAS_PER_BYTE"]),
+    _s("P1.inverse", "smt_gas", "run_inverse", ["C16"], "the inverse used for parked transactions never increases the byte length nor the allowance: len(limit(n)) <= n, limit(len(g)) <= g",
+       "all 64-bit inputs", ["engine::utils::get_gas_limit", "engine::utils::get_inscription_byte_len"]),
+    _s("P1.monotone", "smt_gas", "run_monotone", ["C16"], "the allowance is monotone in the inscription length",
+       "all pairs of 64-bit inputs", ["engine::utils::get_gas_limit"]),
     _s("P2", "smt_key", "run", ["C14", "C18", "C02"], "(block<<64|index) key: order = lexicographic order of (block, index), injective, a block's rows form one contiguous key range",
        "all 64-bit block numbers and indexes", ["db::brc20_prog_database::Brc20ProgDatabase::get_number_and_index_key"]),
     _s("L1", "smt_key", "run_l1", ["C13"], "the representation invariant of a key history admits at most 11 versions (W = 10 read from the crate)",
@@ -359,7 +367,15 @@ OBLIGATIONS += [
 ]
 
 # properties whose check is registered in MANIFEST.json in this revision
-ACTIVE = ["C13"]
+ACTIVE = ["C01", "C02", "C03", "C04", "C05", "C09", "C11", "C13", "C14", "C15", "C16", "C18"]
+
+# Obligations whose harness exists but which did not finish under the tier caps on the unchanged tree
+# (DESIGN.md section 11.2): they are NOT registered - no tier runs them, no property counts them.
+UNREGISTERED = {"E3.unknown", "E3.number", "E3.hash", "D4o", "D5", "D6.refuse", "D6.pass", "D7.mono", "D7.follow", "D11"}
+for _o in OBLIGATIONS:
+    if _o["id"] in UNREGISTERED or _o["id"].startswith("D3.") or _o["id"].startswith("D4."):
+        _o["tiers_unregistered"] = _o["tiers"]
+        _o["tiers"] = {}
 
 PROPERTIES_CLAIMED = ["C01", "C02", "C03", "C04", "C05", "C09", "C11", "C13", "C14", "C15", "C16", "C18"]
 
